@@ -583,6 +583,7 @@ def rule_sudoku(F, R):
     for x in walk(t_main['body']):
         if x['k'] == 'Call' and callee_name(x) == 'std::io::stdin': chans.add('stdin')
         if x['k'] == 'Call' and callee_name(x) == 'std::fs::File::open': chans.add('file')
+        if x['k'] == 'Call' and callee_name(x) == 'std::fs::read_to_string': chans.add('file'); reads.append(x)        # the whole file in one call
     okr = len(reads) >= 1 and all((callee_name(x) or '').split('::')[-1] == 'read_to_string' for x in reads) and chans == {'stdin', 'file'}
     R.count('U:input-reads', len(reads)); R.obligation(okr, 'U reads')
     if not okr: R.violation('sudoku_gen::main / U / input', 'U', 'the puzzle text must be read completely (read_to_string) from the input file and from stdin; found %s' % [(callee_name(x) or '').split('::')[-1] for x in reads])
